@@ -13,6 +13,7 @@ import sys
 
 FIXES = {  # subject prefix -> properties whose check must fire when the fix is reverted
     "fix: config.set records": ["C17"],
+    "fix: dask.core.get accepts": ["C01"],
     "fix: from_array(name=True)": ["C13"],
     "fix: argmin/argmax over all axes": ["C22"],
     "fix: two filters are not merged": ["C43"],
